@@ -140,6 +140,7 @@ def ctype_of(pk):
 
 def jobs(tier):
     out = []
+    TR = traits_of(NAME, {name: rule for name, rule, pk, setx, jt in RULES})
     for name, rule, pk, setx, jt in RULES:
         if jt == 'thorough' and tier != 'thorough':
             continue
@@ -152,7 +153,7 @@ def jobs(tier):
                 E('RET == (%s > 0 && vf_in_set(%s))' % (ln, cp), 'UNIT-ACCEPT', ('C10',)),
                 E('RET ==> CONSUMED(in) == %s' % ln, 'UNIT-LEN', ('C10',)),
             ]
-            con = rc_leaf(tr, 'lf_crlf', progress=True, extra=extra, pos=pk in ('char', 'utf8', 'uint8'))
+            con = rc_leaf(tr, 'lf_crlf', progress=True, extra=extra + c11_leaf(TR[name]), pos=pk in ('char', 'utf8', 'uint8'))
             out.append(Job(
                 name='%s_%s' % (name, sfx), group=NAME, root='%s_%s' % (name, sfx), contract=con,
                 props=('C10', 'C02', 'C03', 'C06', 'C11'), prelude=pre + g_pos.PRE_STUB, stubs=g_pos.pos_stubs(),
